@@ -60,7 +60,7 @@ def main():
     summary = []
     for d in dirs:
         meta = json.load(open(os.path.join(d, "meta.json")))
-        plist = props or [meta["property"]]
+        plist = props or ([meta["property"]] + [p for p in meta.get("also_check", []) if p != meta["property"]])
         sh(f"git -C {SCR_REPO} checkout -- . && git -C {SCR_REPO} clean -fdq -e target")
         r = sh(f"git -C {SCR_REPO} apply --whitespace=nowarn {os.path.join(d, 'patch.diff')}")
         if r.returncode != 0:
@@ -92,8 +92,14 @@ def main():
                         "signatures": sigs[:12], "stderr_tail": p.stderr[-600:] if verdict.startswith("BROKEN") else ""}
             print(f"{os.path.basename(d)} {pid} {tier}: {verdict} {sigs[:4]}", flush=True)
             summary.append((d, pid, verdict))
-        json.dump({"tier": tier, "seed": seed or "1", "repo_head": sh(f"git -C {REPO} rev-parse --short HEAD").stdout.strip(),
-                   "results": res}, open(os.path.join(d, "result.json"), "w"), indent=1)
+        head = sh(f"git -C {REPO} rev-parse --short HEAD").stdout.strip()
+        if "checks_run" in meta:
+            # a directory under /verif/seeded: fold the verdicts into its meta.json
+            for pid, x in res.items():
+                meta["checks_run"][f"{pid}:{tier}:seed{seed or '1'}"] = {"verdict": x["verdict"], "signatures": x.get("signatures", []), "wall_s": x.get("wall_s"), "repo_head": head}
+            json.dump(meta, open(os.path.join(d, "meta.json"), "w"), indent=1)
+        else:
+            json.dump({"tier": tier, "seed": seed or "1", "repo_head": head, "results": res}, open(os.path.join(d, "result.json"), "w"), indent=1)
     sh(f"git -C {REPO} worktree remove --force {SCR_REPO}")
     shutil.rmtree(SCR_VERIF, ignore_errors=True)
     return 0
